@@ -124,6 +124,9 @@ class Script:
     def load_offsets(self, m, which=-1, idx=0, delta=0, p=0):
         self.lines.append("SL %d %d %d %d %d" % (p, m, which, idx, delta))
 
+    def encode_decode(self, p=0):
+        self.lines.append("EN %d" % p)
+
     def observe_all(self, p=0):
         self.lines.append("A %d" % p)
 
